@@ -357,11 +357,35 @@ for full in spec.get("callees", []):
         continue                       # builtins / ufuncs without an introspectable signature: not decided
     names = [p.name for p in sg.parameters.values() if p.kind in (p.POSITIONAL_OR_KEYWORD, p.KEYWORD_ONLY)]
     sigs[".".join(full)] = [names, any(p.kind == p.VAR_KEYWORD for p in sg.parameters.values())]
-json.dump({"modules": out, "signatures": sigs}, sys.stdout)
+cms = {}
+for full in spec.get("cms", []):
+    cur = sys.modules.get(full[0])
+    if cur is None and full[0] in dir(__builtins__):
+        cur = __builtins__
+        full = ["builtins"] + list(full)
+    ok = cur is not None
+    for a in full[1:]:
+        if not ok:
+            break
+        try:
+            cur = getattr(cur, a)
+        except Exception:
+            ok = False
+    key = ".".join(full[1:] if full[0] == "builtins" else full)
+    if not ok:
+        cms[key] = [False, "does not resolve"]
+    elif isinstance(cur, type):
+        has = hasattr(cur, "__enter__") and hasattr(cur, "__exit__")
+        cms[key] = [has, "class %s %s __enter__/__exit__" % (cur.__name__, "defines" if has else "has no")]
+    elif inspect.isgeneratorfunction(getattr(cur, "__wrapped__", None)):
+        cms[key] = [True, "contextlib.contextmanager function"]
+    else:
+        cms[key] = [False, "a function whose result type is not known to the translator"]
+json.dump({"modules": out, "signatures": sigs, "cms": cms}, sys.stdout)
 """
 
 
-def fresh_modules(import_list, paths, callees=()):
+def fresh_modules(import_list, paths, callees=(), cms=()):
     """{module path: dir()} for every path that is reachable BY ATTRIBUTE ACCESS in a fresh interpreter which has
     executed exactly the package's own external import statements.  A sub-module such as numpy.lib.recfunctions exists
     as an attribute only once somebody imported it; resolving it with import_module here would make the reference
@@ -370,11 +394,14 @@ def fresh_modules(import_list, paths, callees=()):
     import subprocess
     p = subprocess.run([sys.executable, "-W", "ignore", "-c", FRESH_SCRIPT],
                        input=_json.dumps({"imports": sorted(import_list), "paths": sorted(paths),
-                                          "callees": sorted(list(c) for c in callees)}),
+                                          "callees": sorted(list(c) for c in callees),
+                                          "cms": sorted(list(c) for c in cms)}),
                        capture_output=True, text=True, timeout=600)
     if p.returncode != 0:
         raise ValueError("fresh-interpreter module resolution failed: " + p.stderr[-400:])
     r = _json.loads(p.stdout)
+    if cms:
+        return r["modules"], r["signatures"], r["cms"]
     return r["modules"], r["signatures"]
 
 
@@ -480,6 +507,72 @@ def optional_leaks(rel, tree, only_here, only_by_module, alias_of_internal):
     top(tree.body, False)
     return leaks
 
+# library functions documented, over the whole declared range, to return an object usable in a `with` statement
+CM_FUNCTIONS = {"open", "io.open", "tarfile.open", "gzip.open", "bz2.open", "lzma.open", "codecs.open", "os.fdopen",
+                "os.scandir", "tempfile.NamedTemporaryFile", "tempfile.TemporaryFile", "tempfile.SpooledTemporaryFile",
+                "threading.Lock", "threading.RLock", "urllib.request.urlopen"}
+
+
+def _dotted(node):
+    parts = []
+    while isinstance(node, ast.Attribute):
+        parts.append(node.attr)
+        node = node.value
+    if isinstance(node, ast.Name):
+        return [node.id] + parts[::-1]
+    return None
+
+
+def own_context_classes(trees):
+    """names of the package's own classes that define (or inherit, by base-class NAME within the package) both
+    __enter__ and __exit__"""
+    defs = {}
+    for t in trees.values():
+        for n in ast.walk(t):
+            if isinstance(n, ast.ClassDef):
+                meths = {m.name for m in n.body if isinstance(m, (ast.FunctionDef, ast.AsyncFunctionDef))}
+                bases = [(_dotted(b) or ["?"])[-1] for b in n.bases]
+                defs.setdefault(n.name, []).append((meths, bases))
+    def has(name, meth, seen=()):
+        if name in seen or name not in defs:
+            return False
+        # every definition of that name must provide it (two classes of one name: be conservative)
+        return all(meth in meths or any(has(b, meth, seen + (name,)) for b in bases) for meths, bases in defs[name])
+    return {n for n in defs if has(n, "__enter__") and has(n, "__exit__")}
+
+
+def with_items(rel, tree, alias, bound, own_cm):
+    """every `with` item of the module: (line, expression text, how it is decided, candidate library path or None).
+    `how` is 'listed' (a documented context-manager function), 'own' (a class of the package that defines the protocol),
+    'library' (decided against the installed object in a fresh interpreter) or 'unknown' (the type of the object is not
+    known to the translator: an attribute or method result of some other object, a local variable, …)."""
+    out = []
+    for n in ast.walk(tree):
+        if not isinstance(n, (ast.With, ast.AsyncWith)):
+            continue
+        for it in n.items:
+            e = it.context_expr
+            text = ast.unparse(e)
+            if len(text) > 80:
+                text = text[:77] + "..."
+            how, cand = "unknown", None
+            if isinstance(e, ast.Call):
+                d = _dotted(e.func)
+                if d is not None:
+                    if d[0] in alias:
+                        full = alias[d[0]].split(".") + d[1:]
+                        if ".".join(full) in CM_FUNCTIONS:
+                            how = "listed"
+                        elif is_external(full[0]):
+                            how, cand = "library", full
+                    elif len(d) == 1 and d[0] == "open" and "open" not in bound:
+                        how = "listed"
+                    elif d[-1] in own_cm:
+                        how = "own"
+            out.append((n.lineno, text, how, cand))
+    return out
+
+
 def lean_str(s):
     return '"' + s.replace("\\", "\\\\").replace('"', '\\"') + '"'
 
@@ -561,7 +654,23 @@ def generate(repo):
         for root, chain, kws, line, g in v.kwcalls:
             if is_external(root) and root.split(".")[0] not in OPTIONAL:
                 callees.add(tuple(root.split(".") + list(chain)))
-    fresh, signatures = fresh_modules(ext_imports, cand, callees)
+    own_cm = own_context_classes(trees)
+    w_rows = []
+    for rel, v in visitors:
+        for line, text, how, c in with_items(rel, trees[rel], v.alias, names_bound_in(trees[rel]), own_cm):
+            w_rows.append((rel, line, text, how, c))
+    cm_cands = {tuple(c) for _, _, _, how, c in w_rows if how == "library"}
+    if cm_cands:
+        fresh, signatures, cm_verdict = fresh_modules(ext_imports, cand, callees, cm_cands)
+    else:
+        (fresh, signatures), cm_verdict = fresh_modules(ext_imports, cand, callees), {}
+    with_table = []
+    for rel, line, text, how, c in sorted(w_rows, key=lambda r: (r[0], r[1], r[2])):
+        if how == "library":
+            okc, why = cm_verdict.get(".".join(c), [False, "not evaluated"])
+            with_table.append((rel, line, text, "library: " + why, bool(okc)))
+        else:
+            with_table.append((rel, line, text, how, how in ("listed", "own")))
     kwrefs = []
     for rel, v in visitors:
         for root, chain, kws, line, g in v.kwcalls:
@@ -637,6 +746,14 @@ def generate(repo):
                "`if …__available__:` block (file, name, function, line); must be empty -/\n")
     out.append("def optionalLeaks : List (String × String × String × Nat) := [%s]\n" % ", ".join(
         "(%s, %s, %s, %d)" % (lean_str(f), lean_str(n), lean_str(fn), l) for f, n, fn, l in opt_leaks))
+    out.append("structure WithItem where\n  file : String\n  line : Nat\n  expr : String\n  how : String\n  resolved : Bool\nderiving Repr\n")
+    out.append("/-- every item of every `with` statement of the package: is the object it enters KNOWN to support the context-manager\n"
+               "protocol (`__enter__`/`__exit__`) in the installed libraries - a documented context-manager function, a class of the\n"
+               "installed library or of the package that defines the protocol; `resolved = false` for anything else (the result of a\n"
+               "method of some other object, a variable, …: the translator cannot type it) -/\n")
+    out.append("def withItems : List WithItem := [\n" + ",\n".join(
+        "  ⟨%s, %d, %s, %s, %s⟩" % (lean_str(f), l, lean_str(x), lean_str(h), "true" if r else "false")
+        for f, l, x, h, r in with_table) + "]\n")
     out.append("/-- how many module-level names are bound only under an optional-dependency guard (non-vacuity) -/\n")
     out.append("def optionalOnlyNames : Nat := %d\n" % sum(len(v) for v in only.values()))
     out.append("/-- lower bound of python_requires in setup.py -/\n")
